@@ -249,6 +249,11 @@ func TestVerifC42Parts(t *testing.T) {
 		if d := opDirected(); ci < len(d) {
 			oc = d[ci]
 		}
+		if roc, renv := opFromReplay(verifkit.Replay()); roc != nil && ci == 0 {
+			oc, env = roc, renv
+			delete(env, operatorEtcdEndpointsEnv)
+			r.Count("replayed_cases", 1)
+		}
 		x := &c42Ctx{r: r, ci: ci, oc: oc, env: env, via: "sub-reconcilers"}
 		opSetEnv(env)
 		key := types.NamespacedName{Namespace: oc.Cluster.Namespace, Name: oc.Cluster.Name}
@@ -372,6 +377,17 @@ func TestVerifC42Full(t *testing.T) {
 			env[operatorEtcdEndpointsEnv] = strings.Join(endpoints, ",")
 		}
 		oc := opGenCluster(rng, o)
+		if roc, renv := opFromReplay(verifkit.Replay()); roc != nil && ci == 0 {
+			for k, v := range renv {
+				if k != operatorEtcdEndpointsEnv {
+					env[k] = v
+				}
+			}
+			roc.Cluster.Spec.Etcd.Endpoints = append([]string(nil), endpoints...)
+			delete(env, operatorEtcdEndpointsEnv)
+			oc = roc
+			r.Count("replayed_cases", 1)
+		}
 		x := &c42Ctx{r: r, ci: ci, oc: oc, env: env, via: "Reconcile"}
 		opSetEnv(env)
 		dctx, cancel := context.WithTimeout(ctx, 20*time.Second)
